@@ -461,7 +461,25 @@ def replay(ob):
     s = dict(wit["structure"])
     s["axes"] = {a: tuple(v) for a, v in s["axes"].items()}
     s["order"] = tuple(s["order"]) if s.get("order") else None
+    if ob["id"].rsplit("/", 1)[-1].startswith("frame:"):
+        return native_frame_replay(s, scenario)
     return replay_scenario(s, wit.get("model", {}), scenario, lambda s_, r_: op_spec(s_, r_, None), "grid_op")
+
+
+def native_frame_replay(s, scen):
+    """real code: is the input array (values, dims, name, attrs, coordinates) what it was before the call?"""
+    import numpy as np
+    nw = NativeWorld({})
+    try:
+        rn = scen(s, nw)
+    except Exception as e:  # noqa
+        return {"confirmed": False, "text": f"native call raised {type(e).__name__}: {e}"}
+    da = rn["da"]
+    # the worlds generate their data deterministically from the array's name and shape: rebuild the untouched input
+    fresh = NativeWorld({}).array(da.name or "D", list(da.dims), rn["ds"], with_coords=bool(da.coords))
+    same = da.dims == fresh.dims and np.array_equal(da.values, fresh.values)
+    text = f"structure {s['sid']}: after the call the input array " + ("is unchanged" if same else "HOLDS DIFFERENT VALUES than before the call (the operation wrote into its argument)")
+    return {"confirmed": not same, "text": text}
 
 
 def replay_scenario(s, model, scen, specf, what):
